@@ -7,6 +7,7 @@ import EpModel.Model.Codec.NetIpv6
 import EpModel.Model.Codec.NetIpv6Frag
 import EpModel.Model.Codec.NetRawExt
 import EpModel.Model.Codec.NetIpv4Exts
+import EpModel.Model.ChecksumFast
 /-
   Model of etherparse/src/packet_builder.rs (C10, family `build`).
 
